@@ -59,7 +59,7 @@ theorem fresh (T : Term) (w0 : Win) (h : List Op) (hw : w0.ok) (hr : resizesOk h
   have hI := inv_reach true false T w0 h hw hr (fun _ => hp.1) (fun h => by cases h)
   refine getCellSize_freshCell false T _ _ _ hI ?_
   have := hp.2.1
-  simp only [step, getCellSize_reads] at this
+  simp only [step, getCellSize_reads, readWin] at this
   exact this trivial
 
 /-- DYNAMIC follows: in DYNAMIC mode `get_cell_ratio()` is `truediv` of a fresh cell size (or of
@@ -72,7 +72,7 @@ theorem dynamic_follows (T : Term) (w0 : Win) (h : List Op) (hw : w0.ok) (hr : r
   rw [cellProviso_append] at hp
   have hI := inv_reach true false T w0 h hw hr (fun _ => hp.1) (fun h => by cases h)
   have hread := hp.2.1
-  simp only [step, St.lift, getCellRatio, hd, getCellSize_reads] at hread
+  simp only [step, St.lift, getCellRatio, hd, getCellSize_reads, readWin] at hread
   refine ⟨(getCellSize T (exec T (St.init w0) h).toCore).2.1, ?_, ?_⟩
   · simp only [getCellRatio, hd]
   · exact getCellSize_freshCell false T _ _ _ hI (hread trivial)
@@ -97,6 +97,9 @@ theorem fixed_snapshot (T : Term) (s : St) (r : RatioVal) (h : List Op)
         | getCellSize =>
           obtain ⟨c, hc⟩ := getCellSize_frame T s.toCore
           simp only [step, hc]; exact hs
+        | getCellSizeR p w =>
+          obtain ⟨c, hc⟩ := getCellSize_frame T { s.toCore with win := mixWin p s.win w }
+          simp only [step, getCellSizeR, hc]; exact hs
         | getCellRatio =>
           simp only [step, St.lift, getCellRatio, hs, ht, if_true]
         | getColors k =>
@@ -139,7 +142,7 @@ theorem fixed_sets_fresh (T : Term) (w0 : Win) (h : List Op) (hw : w0.ok) (hr : 
   generalize exec T (St.init w0) h = s at hI hread hok ⊢
   generalize ghostRun T (St.init w0) none h = g at hI hread
   generalize tscGhostRun T (St.init w0) none h = gt at hI
-  simp only [step, setCellRatio] at hread hok ⊢
+  simp only [step, setCellRatio, readWin] at hread hok ⊢
   have h1 := getCellSize_reads T s.toCore
   have hwn := getCellSize_win T s.toCore
   unfold setAuto at hread hok ⊢
@@ -203,6 +206,63 @@ theorem toggles_invalidate (T : Term) (s : St) (op : Op) (hw : s.win.ok)
     have h2 : (qOnCore s.toCore).cc = CC.cleared := by simp [qOnCore, he]
     exact key (qOnCore s.toCore) h1 h2
   | _ => simp [effectiveToggle] at he
+
+/-! ## a resize that arrives during a lookup -/
+
+/-- the store of `get_cell_size` files the result under the size read at the START of the lookup
+    (`_cell_size_cache[:] = terminal_size + cell_size`, read off the AST), not under a re-read one -/
+theorem generated_store_key : Generated.storeKeyIsFirstRead = true := by decide
+
+/-- LOOKUP RACE.  A resize to a window with a different size in cells that arrives at **any** point
+    of a lookup (after the size read, after the ioctl, after the query was written), from **any**
+    state: whatever that overtaken call measured, it is filed under the size read first, so it is
+    not served afterwards — the next `get_cell_size()` at the new, quiet geometry misses and is a
+    fresh computation for it; and the entry left behind is keyed by the size that was current when
+    the lookup began. -/
+theorem lookup_race_fresh (T : Term) (s : Core) (p : Nat) (w' : Win) (hw' : w'.ok)
+    (hne : ¬(w'.cols = s.win.cols ∧ w'.rows = s.win.rows)) :
+    let s' := (getCellSizeR T s p w').1
+    (s'.cc = CC.cleared ∨ (s'.cc.c = s.win.cols ∧ s'.cc.r = s.win.rows)) ∧
+    (getCellSize T s').2.1 = (getCellSize T s'.fresh).2.1 ∧
+    (getCellSize T s').2.1 = sizeOf (computeCell T w' s.swap s.queries).1 := by
+  have hm : (mixWin p s.win w').cols = s.win.cols ∧ (mixWin p s.win w').rows = s.win.rows := by
+    unfold mixWin; split
+    · exact ⟨rfl, rfl⟩
+    · split <;> exact ⟨rfl, rfl⟩
+  -- the state the overtaken lookup leaves: only `cc` (and the window) changed, key = first read
+  have hkey : ((getCellSizeR T s p w').1.cc = s.cc ∨
+      ((getCellSizeR T s p w').1.cc.c = s.win.cols ∧ (getCellSizeR T s p w').1.cc.r = s.win.rows)) ∧
+      (getCellSizeR T s p w').1.win = w' ∧ (getCellSizeR T s p w').1.swap = s.swap ∧
+      (getCellSizeR T s p w').1.queries = s.queries := by
+    unfold getCellSizeR getCellSize
+    split
+    · exact ⟨Or.inl rfl, rfl, rfl, rfl⟩
+    · exact ⟨Or.inr ⟨hm.1, hm.2⟩, rfl, rfl, rfl⟩
+  obtain ⟨hk, hwin, hsw, hq⟩ := hkey
+  -- a hit of the overtaken lookup means the old key was already the first-read size
+  have hk' : (getCellSizeR T s p w').1.cc = CC.cleared ∨
+      ((getCellSizeR T s p w').1.cc.c = s.win.cols ∧ (getCellSizeR T s p w').1.cc.r = s.win.rows) := by
+    rcases hk with h | h
+    · by_cases hh : (mixWin p s.win w').cols = s.cc.c ∧ (mixWin p s.win w').rows = s.cc.r
+      · right; rw [h]; exact ⟨by rw [← hh.1, hm.1], by rw [← hh.2, hm.2]⟩
+      · right
+        have : (getCellSizeR T s p w').1.cc.c = s.win.cols ∧ (getCellSizeR T s p w').1.cc.r = s.win.rows := by
+          unfold getCellSizeR getCellSize
+          rw [if_neg hh]; exact ⟨hm.1, hm.2⟩
+        exact this
+    · exact Or.inr h
+  dsimp only
+  refine ⟨hk', ?_⟩
+  have hmiss : ¬((getCellSizeR T s p w').1.win.cols = (getCellSizeR T s p w').1.cc.c ∧
+      (getCellSizeR T s p w').1.win.rows = (getCellSizeR T s p w').1.cc.r) := by
+    rw [hwin]
+    rcases hk' with h | h
+    · rw [h]; show ¬(w'.cols = 0 ∧ w'.rows = 0); unfold Win.ok at hw'; omega
+    · rw [h.1, h.2]; exact hne
+  have hok' : (getCellSizeR T s p w').1.win.ok := by rw [hwin]; exact hw'
+  refine ⟨?_, ?_⟩
+  · rw [getCellSize_miss T _ hmiss, getCellSize_fresh T _ hok']
+  · rw [getCellSize_miss T _ hmiss, hwin, hsw, hq]
 
 /-! ## enable_discards -/
 
@@ -427,13 +487,13 @@ theorem cached_once_concurrent_coarse (arg : Nat → Nat) (sched : List Nat) :
 example : cellProviso kittyTerm (St.init win0) none
     ([.getCellSize, .resize { win0 with cols := 100, aw := 1000 }, .getCellSize, .swapOn,
       .resize { win0 with cols := 100, aw := 1200 }] ++ [.getCellSize]) := by
-  simp [cellProviso, step, provisoAt, ghostStep, effectiveToggle, readsCell, getCellSize, sameCells,
+  simp [cellProviso, step, provisoAt, ghostStep, readWin, effectiveToggle, readsCell, getCellSize, sameCells,
     St.init, Core.init, win0, CC.cleared, computeCell, kittyTerm, Generated.initSwap, Generated.initQueries]
 
 /-- the proviso is not vacuous either: the A→A' font change without a toggle violates it -/
 example : ¬ cellProviso kittyTerm (St.init win0) none
     [.getCellSize, .resize { win0 with cw := 12 }, .getCellSize] := by
-  simp [cellProviso, step, provisoAt, ghostStep, effectiveToggle, readsCell, getCellSize, sameCells,
+  simp [cellProviso, step, provisoAt, ghostStep, readWin, effectiveToggle, readsCell, getCellSize, sameCells,
     St.init, Core.init, win0, CC.cleared, computeCell, kittyTerm, Generated.initSwap, Generated.initQueries]
 
 example : (exec kittyTerm (St.init win0) [.setRatio .dynamic]).ratio = none := by decide
